@@ -9,6 +9,8 @@ UNITS = {
     "logger": [TF],
     "flw": [()],
     "multi": [()],
+    "dispatch": [("async",)],
+    "handle_async": [("async",)],
     "handle": [()],
     "naming": [()],
     "listing": [()],
@@ -26,7 +28,7 @@ PROP_UNITS = {
     "C09": [("state", ())],
     "C13": [("logger", TF), ("flw", ()), ("multi", ())],
     "C14": [("state", ()), ("listing", ()), ("naming", ())],
-    "C15": [("state", ()), ("handle", ()), ("flw", ())],
+    "C15": [("state", ()), ("handle", ()), ("flw", ()), ("dispatch", ("async",)), ("handle_async", ("async",))],
     "C16": [("naming", ()), ("listing", ()), ("state", ())],
     "C18": [("state", ()), ("handle", ())],
     "C19": [("state", ()), ("logger", TF), ("multi", ())],
